@@ -275,8 +275,8 @@ func Run(ctx *common.Ctx) {
 	if os.Getenv("VERIF_C19_TIMING") != "" {
 		fmt.Fprintln(os.Stderr, "data part done", time.Since(t0))
 	}
-	// known findings C19-class-accessors-keyword and C19-package-load-form
-	checkObjects(ctx, rng, dir, map[string]bool{"class-with-accessor": true, "package": true})
+	// known finding C19-class-accessors-keyword
+	checkObjects(ctx, rng, dir, map[string]bool{"class-with-accessor": true})
 	nmod, next := 140, 110
 	if ctx.Thorough() {
 		nmod, next = 1500, 1200
